@@ -317,6 +317,11 @@ func (f *FamCtx) AddFinding(c Case, o Outcome, mk Runner) {
 	if so.Kind == "" {
 		sh, so = c, o
 	}
+	if o.LaterViol != "" && so.Kind != "oracle" && so.LaterViol == "" {
+		// the full history goes on to contradict the property itself after the first disagreement
+		// with the model; the shrunk one lost that part: a failing input is worth more than brevity
+		sh, so = c, o
+	}
 	fi := Finding{Family: f.Report.Family, Property: f.Report.Property, Case: c, Shrunk: sh, Outcome: so}
 	fi.FailingInput = so.Kind == "oracle" || so.LaterViol != ""
 	if !fi.FailingInput && f.Gen != nil {
